@@ -205,6 +205,9 @@ func (c09) Plan(tier string, seed int64) []core.Scenario {
 	for i := 0; i < nw; i++ {
 		out = append(out, core.Scenario{Kind: "ws", Seed: seed*217645177 + int64(i), N: map[string]int{"n": 60}, S: map[string]string{}})
 	}
+	for i := 0; i < 2; i++ {
+		out = append(out, core.Scenario{Kind: "ws-noparams", Seed: seed*217645177 + 7100 + int64(i), N: map[string]int{"conns": 1 + i}, S: map[string]string{}})
+	}
 	for i := 0; i < 4; i++ {
 		out = append(out, core.Scenario{Kind: "ws-idreuse", Seed: seed*217645177 + 7000 + int64(i), N: map[string]int{"idkind": i % 2, "first": i / 2}, S: map[string]string{}})
 	}
@@ -337,6 +340,8 @@ func (p c09) Run(sc core.Scenario) core.Result {
 		p.ws(sc, r)
 	case "ws-idreuse":
 		p.wsIDReuse(sc, r)
+	case "ws-noparams":
+		p.wsNoParams(sc, r)
 	}
 	return r.Result()
 }
@@ -917,4 +922,85 @@ func (c09) wsIDReuse(sc core.Scenario, r *core.R) {
 	}
 	r.Key(fmt.Sprintf("ws-idreuse id=%s first=%d", id, sc.I("first")), true)
 	r.Sample(map[string]interface{}{"transport": "ws", "scenario": "one id reused by consecutive requests incl. channel-returning ones", "id": id, "requests": len(steps)})
+}
+
+// wsNoParams: requests that omit the params member altogether (legal JSON-RPC, never produced by this
+// library's client) interleaved with requests that carry params, on one or two connections. A method with
+// parameters called without params is an arity error and its handler does not run; a parameterless method
+// called without params runs.
+func (c09) wsNoParams(sc core.Scenario, r *core.R) {
+	s := newC09Srv()
+	ts := httptest.NewServer(s.rpc)
+	defer ts.Close()
+	var conns []*websocket.Conn
+	for i := 0; i < sc.I("conns"); i++ {
+		conn, _, err := websocket.DefaultDialer.Dial("ws://"+ts.Listener.Addr().String(), http.Header{})
+		if err != nil {
+			r.Inconclusive("dial: %v", err)
+			return
+		}
+		defer conn.Close()
+		conns = append(conns, conn)
+	}
+	type step struct {
+		frame  string
+		expect string // result JSON, "error:<code>", "" = notification (no reply)
+		runs   int64
+	}
+	steps := []step{
+		{`"method":"J.Val","params":[41]`, "42", 1},
+		{`"method":"J.Val"`, "error:-32602", 0},
+		{`"method":"J.Add","params":[5,100]`, "105", 1},
+		{`"method":"J.Add"`, "error:-32602", 0},
+		{`"method":"J.Nop"`, "null", 1},
+		{`"method":"J.Str","params":["x"]`, `"x"`, 1},
+		{`"method":"J.Nop"`, "null", 1},
+		{`"method":"J.Str"`, "error:-32602", 0},
+		{`"method":"J.Val","params":[1]`, "2", 1},
+		{`"method":"J.Val","params":[]`, "error:-32602", 0},
+	}
+	for round := 0; round < 20; round++ {
+		for i, st := range steps {
+			conn := conns[(round+i)%len(conns)]
+			id := 1000*round + i
+			before := atomic.LoadInt64(&s.j.n)
+			req := fmt.Sprintf(`{"jsonrpc":"2.0","id":%d,%s}`, id, st.frame)
+			if err := conn.WriteMessage(websocket.TextMessage, []byte(req)); err != nil {
+				r.Inconclusive("write: %v", err)
+				return
+			}
+			r.Obs("ws_frames_sent", 1)
+			conn.SetReadDeadline(time.Now().Add(core.Grace))
+			_, msg, err := conn.ReadMessage()
+			where := fmt.Sprintf("round %d: request %s (sent after %q)", round, req, steps[(i+len(steps)-1)%len(steps)].frame)
+			if err != nil {
+				r.Violate("ws-response-count", "%s: no response frame: %v", where, err)
+				return
+			}
+			var f struct {
+				ID     int             `json:"id"`
+				Result json.RawMessage `json:"result"`
+				Error  *struct {
+					Code int `json:"code"`
+				} `json:"error"`
+			}
+			if json.Unmarshal(msg, &f) != nil || f.ID != id {
+				r.Violate("malformed-response-object", "%s: answered with %s", where, core.Trunc(string(msg), 120))
+				continue
+			}
+			got := string(f.Result)
+			if f.Error != nil {
+				got = fmt.Sprintf("error:%d", f.Error.Code)
+			}
+			ran := atomic.LoadInt64(&s.j.n) - before
+			if got != st.expect {
+				r.Violate("wrong-outcome", "%s: expected %s, got %s", where, st.expect, core.Trunc(string(msg), 120))
+			}
+			if ran != st.runs {
+				r.Violate("handler-run-count", "%s: the handler ran %d times, expected %d", where, ran, st.runs)
+			}
+		}
+	}
+	r.Key(fmt.Sprintf("ws-noparams conns=%d", sc.I("conns")), true)
+	r.Sample(map[string]interface{}{"transport": "ws", "scenario": "requests without a params member interleaved with requests that carry params", "connections": len(conns)})
 }
